@@ -210,7 +210,7 @@ public:
     constexpr auto operator[](index_constant<I> index) & -> auto&
     {
         static_assert(I < sizeof...(Ts));
-        TETL_PRECONDITION(I == index());
+        TETL_PRECONDITION(I == this->index());
         return _union[index];
     }
 
@@ -220,7 +220,7 @@ public:
     constexpr auto operator[](index_constant<I> index) const& -> auto const&
     {
         static_assert(I < sizeof...(Ts));
-        TETL_PRECONDITION(I == index());
+        TETL_PRECONDITION(I == this->index());
         return _union[index];
     }
 
@@ -230,7 +230,7 @@ public:
     constexpr auto operator[](index_constant<I> index) && -> auto&&
     {
         static_assert(I < sizeof...(Ts));
-        TETL_PRECONDITION(I == index());
+        TETL_PRECONDITION(I == this->index());
         return etl::move(_union)[index];
     }
 
@@ -240,7 +240,7 @@ public:
     constexpr auto operator[](index_constant<I> index) const&& -> auto const&&
     {
         static_assert(I < sizeof...(Ts));
-        TETL_PRECONDITION(I == index());
+        TETL_PRECONDITION(I == this->index());
         return etl::move(_union)[index];
     }
 
